@@ -255,3 +255,26 @@ struct FileContent {
     content: String,
     is_remote: bool,
 }
+
+#[cfg(feature = "verif-hooks")]
+impl Vfs {
+    /// verif hook H1: entry counts of every map of the virtual file system
+    pub fn verif_sizes(&self, out: &mut Vec<(String, usize)>) {
+        out.push(("vfs.file_id_map".into(), self.file_id_map.len()));
+        out.push(("vfs.file_path_map".into(), self.file_path_map.len()));
+        out.push(("vfs.remote_file_id_map".into(), self.remote_file_id_map.len()));
+        out.push((
+            "vfs.file_data.some".into(),
+            self.file_data.iter().filter(|d| d.is_some()).count(),
+        ));
+        out.push((
+            "vfs.file_data.bytes".into(),
+            self.file_data
+                .iter()
+                .map(|d| d.as_ref().map(|c| c.content.len()).unwrap_or(0))
+                .sum(),
+        ));
+        out.push(("vfs.line_index_map".into(), self.line_index_map.len()));
+        out.push(("vfs.tree_map".into(), self.tree_map.len()));
+    }
+}
